@@ -1512,7 +1512,8 @@ def stream_pol_histories(run, n):
 
 
 # -- caller-data aliasing / argument mutation -------------------------------------------------------------------------------
-MULT_REPRS = ['list', 'tuple', 'c-array', 'c-array-view', 'f-array', 'transposed', 'strided-view', 'int-array', 'float32-array', 'list-of-arrays']
+MULT_REPRS = ['list', 'tuple', 'c-array', 'c-array-view', 'f-array', 'transposed', 'strided-view', 'int-array', 'float32-array', 'list-of-arrays',
+              'reversed-view', 'readonly-view', 'big-endian-array', 'object-array']
 
 
 def make_multiplet_arg(rep, table):
@@ -1557,6 +1558,24 @@ def make_multiplet_arg(rep, table):
         base[1, 1::2] = ws
         base[3, 1::2] = rs
         arr = base[1::2, 1::2]
+    elif rep == 'reversed-view':         # negative stride
+        base = np.array([ws[::-1], rs[::-1]], dtype=np.float64)
+        arr = base[:, ::-1]
+    elif rep == 'readonly-view':         # the caller keeps a writable base, hands over a read-only view
+        base = np.array([ws, rs], dtype=np.float64)
+        arr = base.view()
+        arr.flags.writeable = False
+
+        def mutate_ro():
+            base[1, :] = base[1, :] * 3 + 2
+            base[0, :] = base[0, :] + 2
+        return arr, mutate_ro, lambda: arr.copy()
+    elif rep == 'big-endian-array':
+        arr = np.array([ws, rs], dtype='>f8')
+        base = arr
+    elif rep == 'object-array':
+        arr = np.array([ws, rs], dtype=object)
+        base = arr
     elif rep == 'int-array':
         arr = np.array([[int(round(w)) for w in ws], [1] + [0] * (n - 1)], dtype=np.int64)
         base = arr
@@ -1616,7 +1635,13 @@ def stream_aliasing(run, n):
 
         if kind == 'mult':
             rep = MULT_REPRS[(it // 3 * 2 + it % 3) % len(MULT_REPRS)]
-            table = list(extra['mult'])
+            # dyadic ratios: every partial sum is exact, so the ratios sum to 1.0 in *any* summation order (numpy's pairwise
+            # sum over a strided row included) and a rejection cannot be blamed on rounding
+            k_ = len(extra['mult'])
+            rs_ = [0.5, 0.25, 0.125, 0.0625, 0.03125, 0.03125][:k_]
+            rs_[-1] += 1.0 - sum(rs_)
+            rng.shuffle(rs_)
+            table = [(w, r) for (w, _), r in zip(extra['mult'], rs_)]
             if rep == 'int-array':
                 table = [(float(int(round(w))), 1.0 if j == 0 else 0.0) for j, (w, r) in enumerate(table)]
             if rep == 'float32-array':
@@ -1631,9 +1656,15 @@ def stream_aliasing(run, n):
                         scenario='construct from the caller\'s %s, evaluate, mutate the caller\'s object in place, evaluate again' % rep)
             try:
                 m = L.MultipletLineShape(line, e['wl'], sp, W.plasma, W.ad, arg)
-            except ValueError:
+            except Exception as ex:  # noqa
+                # right shape, ratios summing to one, values that convert to float64 without loss: a legal table whatever its
+                # memory layout / dtype / container
                 ctx.count('ctor-rejected:alias-' + rep)
+                run.s_check(False, 'C02:MultipletLineShape:legal-table-representation-rejected(%s)' % rep,
+                            'MultipletLineShape rejected a legal 2x%d multiplet table given as %s (wavelengths %r, ratios %r summing to 1): %s: %s'
+                            % (len(table), rep, [w for w, r in table], [r for w, r in table], type(ex).__name__, ex), desc, 'alias-accept', (rep, len(table)))
                 continue
+            run.s_check(True, '', '', desc, 'alias-accept', (rep, len(table)))
             private = L.MultipletLineShape(line, e['wl'], sp, W.plasma, W.ad, [[w for w, r in table], [r for w, r in table]])
             run.s_check(_same_obj(before, snap()), 'C02:MultipletLineShape:constructor-modified-caller-data(%s)' % rep,
                         'MultipletLineShape.__init__ changed the caller\'s multiplet %s: %r -> %r' % (rep, before, snap()), desc, 'alias-ctor', (rep,))
